@@ -77,7 +77,7 @@ class C12Monitor(Monitor, C12Common):
     def _applies(self, w, name):
         # "with constraint application enabled (the default)"
         def flag(m):
-            if m["type"] == "sum":
+            if m["type"] in ("sum", "wrap"):
                 return all(flag(x) for x in m["items"])
             if m["type"] == "mul":
                 return flag(m["item"])
